@@ -358,6 +358,33 @@ func (d *c19Dom) allSets(values []string, keyNames []string) []c19Set {
 	return sets
 }
 
+// copyAdd: a set copied by plain assignment (the way dep.Type values are passed around) and then given, like its
+// original, the addition K=V must end up, on both sides, holding s plus K=V. "" when it does.
+func (d *c19Dom) copyAdd(s c19Set, kn, val string) string {
+	k := keyByName(d.all, kn)
+	x := d.build(s, false)
+	y := x
+	y.add(k, val)
+	x.add(k, val)
+	ws := c19Set{assign: map[string]string{}}
+	for _, n := range s.order {
+		if n != kn {
+			ws.order = append(ws.order, n)
+			ws.assign[n] = s.assign[n]
+		}
+	}
+	ws.order = append(ws.order, kn)
+	ws.assign[kn] = val
+	want := d.build(ws, false)
+	if !x.equal(&want) || x.str() != want.str() {
+		return fmt.Sprintf("original after copy-by-assignment, copy.Add(%s,%q), original.Add(%s,%q) is %s, want %s", kn, val, kn, val, x.str(), want.str())
+	}
+	if !y.equal(&want) || y.str() != want.str() {
+		return fmt.Sprintf("copy after copy-by-assignment, copy.Add(%s,%q), original.Add(%s,%q) is %s, want %s", kn, val, kn, val, y.str(), want.str())
+	}
+	return ""
+}
+
 func (s c19Set) witness() string {
 	var parts []string
 	for _, n := range s.order {
@@ -480,7 +507,7 @@ func C19(tier string) {
 	} else {
 		run.SetBudget(1500e9)
 	}
-	run.Cov["rule"] = "E2: BFS to closure over pairs (X,Y) of dep.Type and of version.AttrSet under add/set, clone (both directions) and reset; in every state both variables are compared with map models through every accessor, Equal/Compare against model equality, and a destructive aliasing probe; E1: full product of single sets (all key/value assignments of the alphabet) built in two insertion orders: Compare total order by ranking certificate, equality == model equality, text round trips (deptest syntax, schema document, versiontest.String)"
+	run.Cov["rule"] = "E2: BFS to closure over pairs (X,Y) of dep.Type and of version.AttrSet under add/set, clone (both directions) and reset; in every state both variables are compared with map models through every accessor, Equal/Compare against model equality, and a destructive aliasing probe; E1: full product of single sets (all key/value assignments of the alphabet) built in two insertion orders: Compare total order by ranking certificate, equality == model equality, text round trips (deptest syntax, schema document, versiontest.String); every single set copied by assignment, then copy and original given the same addition: both must hold it"
 	var states, transitions int64
 	per := map[string]any{}
 	for _, isDep := range []bool{true, false} {
@@ -539,6 +566,17 @@ func C19(tier string) {
 				run.Fail(core.Join("rt", d.name, clause, s.witness()), b)
 			}
 			run.Outcome(d.name + vals[i].str())
+			for _, kn := range names {
+				if k := keyByName(d.all, kn); k.flag || kn == "Selector" {
+					continue
+				}
+				for _, v := range []string{"a", "b c"} {
+					if msg := d.copyAdd(s, kn, v); msg != "" {
+						run.Fail(core.Join("copyadd", d.name, kn, v, s.witness()), msg)
+					}
+					transitions++
+				}
+			}
 		}
 		transitions += int64(len(sets)) * 4
 		n := len(sets)
@@ -663,6 +701,10 @@ func c19Replay(w string) (bool, string) {
 			}
 		}
 		return len(rel) == 0, strings.Join(rel, "; ")
+	case "copyadd":
+		d := c19Domain(isDep, false)
+		msg := d.copyAdd(c19ParseSetWitness(p[4]), p[2], p[3])
+		return msg == "", msg
 	case "order":
 		d := c19Domain(isDep, false)
 		s := c19ParseSetWitness(p[2])
